@@ -18,7 +18,7 @@ from simcore import treeops as T
 from simcore import values as V
 from simcore.rng import Rng
 
-REC_NAMES = ["foo", "foo2", "foo-bar", "fo", "foo-bar2", "Foo", "m1", "m2", "m3", "m4", "m5", "m6", "m7", "m8"]
+REC_NAMES = ["foo", "foo2", "foo-bar", "fo", "foo-bar2", "Foo", "m1", "m2", "m3", "m4", "m5", "m6", "m7", "m8", "phi", "mesh", "run-15", "mes"]
 MODES = ["r", "r+", "a", "w", "w-", "x"]
 
 LIFE_OPS = ("open", "close", "commit", "create_patch", "discard", "merge", "check_history", "apply_tail", "open_prefix", "merge_moved_manifest")
@@ -1341,7 +1341,8 @@ class IH5StoreEngine:
         if profile == "overlay" and g.random() < 0.25:
             nrec = 2  # two records: copies of node objects from one container into another
         cfg["classes"] = {}
-        recs = g.sample(range(4), nrec) if nrec > 1 else [g.choice([0, 0, 0, 1, 2, 3])]
+        pool = [0, 1, 2, 3, 14, 15, 16, 17]  # foo foo2 foo-bar fo phi mesh run-15 mes
+        recs = g.sample(pool, nrec) if nrec > 1 else [g.choice([0, 0, 0, 1, 2, 3, 14, 15, 16])]
         mfprob = {"overlay": 0.25, "immutable": 0.5, "restart": 0.5, "merge": 0.5}[profile]
         for i in recs:
             cfg["classes"][str(i)] = "mf" if g.random() < mfprob else "ih5"
